@@ -22,6 +22,7 @@ import Pyc.Driver.Pool
 import Pyc.Driver.WitnessCodec
 import Pyc.Driver.BodyAsm
 import Pyc.Driver.Gov
+import Pyc.Driver.Compose
 open Lean Pyc.Driver
 
 /-- dispatch on the prefix of `op` -/
@@ -51,6 +52,7 @@ def dispatch (op : String) (j : Json) : R Json :=
   else if op.startsWith "pool." then handlePool op j
   else if op.startsWith "wc." then handleWitnessCodec op j
   else if op.startsWith "basm." then handleBodyAsm op j
+  else if op.startsWith "cmp." then handleCompose op j
   else throw s!"unknown op {op}"
 
 def handleLine (line : String) : String :=
